@@ -1100,4 +1100,43 @@ theorem site_unique {proj : Project} {rank : List Nat} (wf : WFacts proj rank) {
     (h : StaticSite proj S) (h' : StaticSite proj S') (hp : sitePath proj S = sitePath proj S') : S = S' :=
   nodup_map_inj wf.pathsNodup (static_mem_entities h) (static_mem_entities h') hp
 
+/-! ## inversion of `Jpd` -/
+
+/-- what statement `st` of scope `S` says about the alias entry for `x` -/
+def StmtD (proj : Project) (S : Site) : Stmt → Name → Path → Prop
+  | .importMod t (some a), x, tgt => x = a ∧ tgt = t
+  | .importMod t none, x, tgt => (∃ r, t = x :: r) ∧ tgt = [x]
+  | .importFrom lvl M n a, x, tgt => x = a.getD n ∧ ∃ T, pdAbsName proj S.1 lvl M = some T ∧ tgt = T ++ [n]
+  | .importStar _ _, _, _ => True
+  | _, _, _ => False
+
+theorem jpd_inv {proj : Project} {rank : List Nat} (wf : WFacts proj rank) {S : Site} {x : Name} {tgt : Path}
+    (h : Jpd proj S x tgt) :
+    ∃ b st, siteBody proj S = some b ∧ st ∈ b ∧ x ∈ stmtNamesR proj rank S st ∧ StmtD proj S st x tgt := by
+  induction h with
+  | @importAs S b tgt x hb hst =>
+    exact ⟨b, _, hb, hst, stmtNames_of_explicit (by simp [explicitNames]), rfl, rfl⟩
+  | @importTop S b h r hb hst =>
+    exact ⟨b, _, hb, hst, stmtNames_of_explicit (by simp [explicitNames]), ⟨r, rfl⟩, rfl⟩
+  | @«from» S b lvl M n a T hb hst hT =>
+    exact ⟨b, _, hb, hst, stmtNames_of_explicit (by simp [explicitNames]), rfl, T, hT, rfl⟩
+  | @starChild S b lvl M T t x hb hst hT hu hok hx =>
+    refine ⟨b, _, hb, hst, (star_mem wf hb hst hT hu (Or.inr ⟨hok, ?_⟩)).2.2, trivial⟩
+    rw [modNames_succ]
+    rcases hx with hx | ⟨st, hst', hd⟩
+    · exact List.mem_append_left _ hx
+    · exact List.mem_append_right _ (List.mem_flatMap.2 ⟨st, hst', stmtNames_of_explicit (defName_explicit hd)⟩)
+  | @starAlias S b lvl M T t x tgt hb hst hT hu hok hj _ =>
+    have hlt : t < proj.length := by
+      obtain ⟨t', ht', _⟩ := wf.targets hb hst (target proj S.1 lvl M) (by simp [stmtTargets])
+      have := star_target hT hu ht'; subst this
+      obtain ⟨T', _, hm'⟩ := target_spec ht'
+      exact (modIdx_spec hm').1
+    obtain ⟨st', hst', hx'⟩ := jpd_names wf hj _ (siteBody_zero hlt)
+    refine ⟨b, _, hb, hst, (star_mem wf hb hst hT hu (Or.inr ⟨hok, ?_⟩)).2.2, trivial⟩
+    rw [modNames_succ]
+    exact List.mem_append_right _ (List.mem_flatMap.2 ⟨st', hst', hx'⟩)
+  | @starNone S b lvl M T t x hb hst hT hu hx =>
+    exact ⟨b, _, hb, hst, (star_mem wf hb hst hT hu (Or.inl hx)).2.2, trivial⟩
+
 end Imports
